@@ -98,12 +98,15 @@ theorem le_maxNum {l : List Nat} {n : Nat} (h : n ∈ l) : n ≤ maxNum l := by
 
 theorem lt_manifestNum {r : RDisk} {n : Nat} (h : n ∈ r.disk.tables.nums) : n < manifestNum r := by
   unfold manifestNum
-  have hne : r.disk.tables.isEmpty = false := by
-    cases ht : r.disk.tables with
-    | nil => simp [Files.nums, ht] at h
+  have hmem : n ∈ allNums r := by
+    unfold allNums
+    exact List.mem_append_left _ (List.mem_append_left _ (List.mem_append_left _ h))
+  have hne : (allNums r).isEmpty = false := by
+    cases ha : allNums r with
+    | nil => rw [ha] at hmem; simp at hmem
     | cons p ps => rfl
   rw [hne]
-  have := le_maxNum h
+  have := le_maxNum hmem
   simp only [Bool.false_eq_true, if_false]
   omega
 
